@@ -905,6 +905,7 @@ func checkC10(c *Ctx) {
 	ruleAltKinds(c, r.h)
 	ruleTextProv(c, r.h)
 	ruleJoin(c)
+	ruleWalkWiring(c)
 	effRules(c)
 	e := newEFF(c.P)
 	var entries []*ssa.Function
